@@ -80,7 +80,7 @@ func init() {
 	parserJudges["C03"] = judgeC03
 	register(&Check{
 		ID:        "C03",
-		QuickSecs: 900, ThoroSecs: 1200,
+		QuickSecs: 900, ThoroSecs: 3000,
 		Rule: "input-space exploration of the real parser: every argv of length <= L over a 21-token alphabet (positionals, empty string, lonesome dash, terminator, known/unknown long, short and bundled options, attached and detached values, multi-value string / int / map options with optional further values, an optional-value option with and without attached value, command names) " +
 			"in all 18 mode x unknown-mode x require-order configurations plus 36 in which the command, or only its sub-command, sets a different unknown-mode than the root, and 6 in which that sub-command is the only command that does, plus 9 in which only the command sets require-order; remaining compared (i) model-free as a sub-sequence of the input and (ii) with the reference model; states = argv prefixes visited, transitions = token appends, " +
 			"distinct_nontrivial = distinct (configuration, argv) cases inside the specified territory (every enumerated case is distinct by construction)",
